@@ -587,6 +587,14 @@ func largeReuse(c *explore.Ctx) {
 		if i%500 == 499 {
 			ts = append(ts, model.Term{T: "few", Freq: 1})
 		}
+		// two more lists that are one run of consecutive documents each, like "all", but of other
+		// cardinality classes (their bitmaps serialize to the same number of bytes)
+		if i >= 1000 {
+			ts = append(ts, model.Term{T: "tail", Freq: 1 + i%3})
+		}
+		if i < 500 {
+			ts = append(ts, model.Term{T: "lead", Freq: 2})
+		}
 		batch[i] = model.Doc{{N: "a", Len: 3, Terms: ts}}
 	}
 	big, err := build(batch, 1025)
@@ -604,7 +612,10 @@ func largeReuse(c *explore.Ctx) {
 		name string
 		term string
 	}
-	lks := []lk{{big, "big", "all"}, {big, "big", "half"}, {big, "big", "third"}, {big, "big", "few"}, {small, "small", "x"}, {big, "big", "absent"}}
+	lks := []lk{{big, "big", "all"}, {big, "big", "half"}, {big, "big", "third"}, {big, "big", "few"}, {small, "small", "x"}, {big, "big", "absent"}, {big, "big", "tail"}, {big, "big", "lead"}}
+	// ONE long-lived Dictionary per segment serves all lookups of a sequence (whatever a dictionary
+	// remembers of the list it read last)
+	longLived := map[segment.Segment]segment.Dictionary{}
 	walk := func(pl segment.PostingsList, locs bool, pre segment.PostingsIterator) (string, segment.PostingsIterator) {
 		out := ""
 		var it segment.PostingsIterator
@@ -658,11 +669,17 @@ func largeReuse(c *explore.Ctx) {
 			var pi segment.PostingsIterator
 			for i, x := range v {
 				l, locs := lks[x/2], x%2 == 1
-				d, err := l.seg.Dictionary("a")
-				if err != nil {
-					c.Violate(scope, 0, sigOf("C13", "large-reuse", "error: "+err.Error()), err.Error(), "")
-					return false
+				d := longLived[l.seg]
+				if d == nil {
+					var err error
+					d, err = l.seg.Dictionary("a")
+					if err != nil {
+						c.Violate(scope, 0, sigOf("C13", "large-reuse", "error: "+err.Error()), err.Error(), "")
+						return false
+					}
+					longLived[l.seg] = d
 				}
+				var err error
 				var npl segment.PostingsList
 				msg := explore.Guard(func() { npl, err = d.PostingsList([]byte(l.term), nil, pl) })
 				if msg != "" || err != nil {
